@@ -1,0 +1,34 @@
+//go:build verif
+
+package notification
+
+import "context"
+
+// The declarations in this file exist only in builds with the "verif" tag.
+// They are thin exported wrappers around the existing unexported steps of the
+// notification dispatcher so that the external verification harness can run
+// dispatcher rounds at chosen points instead of waiting for the trigger
+// channel / the 1 s timer of dispatchLoop. They change no behaviour.
+
+// VerifDispatchAvailable is dispatchAvailable: one full dispatcher round (claim
+// batches and dispatch them until nothing is claimable, then refresh gauges).
+func (m *StorageMiddleware) VerifDispatchAvailable(ctx context.Context) {
+	m.dispatchAvailable(ctx)
+}
+
+// VerifClaim is claim: claims the first claimable entry, if any.
+func (m *StorageMiddleware) VerifClaim(ctx context.Context) (*OutboxEntry, bool, error) {
+	return m.claim(ctx)
+}
+
+// VerifDispatchEntry is dispatchEntry: publishes one claimed entry and then
+// deletes, releases (with backoff) or dead-letters it.
+func (m *StorageMiddleware) VerifDispatchEntry(ctx context.Context, entry *OutboxEntry) {
+	m.dispatchEntry(ctx, entry)
+}
+
+// VerifOutboxID returns the outbox id the middleware enqueues under.
+func (m *StorageMiddleware) VerifOutboxID() string { return m.outboxID }
+
+// VerifClaimOwner returns the identity the middleware claims entries with.
+func (m *StorageMiddleware) VerifClaimOwner() string { return m.claimOwner }
